@@ -95,6 +95,7 @@ type epochArm struct {
 
 // Unit is one verification unit: a function body (with inlined callees) and its obligations.
 type Unit struct {
+	setMemo map[string]Term // setof comprehensions by body
 	siteOrd map[string]map[token.Pos]int
 	eng         *Engine
 	u           *Universe
